@@ -14,7 +14,8 @@ LEVEL_TEXT = ("Every ordered selection of the six option groups with both spelli
               " Values include integers a double cannot hold (both signs), and 12 spellings of (schema, name) incl. quoted first parts, under both normalize_names settings."
               " ALTER statements placed right after the sequence must still reach their table."
               ' Wave 5: 29 name spellings incl. names that begin with the letters of a type keyword (array_ids, ARRAY_IDS, ARRAYS.Q1, enum_seq, MAP_SEQ); thorough additionally runs every selection of 3 options in every context and with every value rotation, and every selection in mixed keyword case between two tables (250 000 statements).'
-              " Defect hunt: the sequence between / after statements WITHOUT ';' (values must keep their last digit), a ';'-terminated last line after a ';'-less statement.")
+              " Defect hunt: the sequence between / after statements WITHOUT ';' (values must keep their last digit), a ';'-terminated last line after a ';'-less statement."
+              " Wave 6: the mixed-terminator script (an unterminated statement ended by a complete one-line ';'-terminated statement).")
 LEVEL_NOTE = "Integer values come from a fixed boundary set {0,1,-1,5,+-2^31,2^63-1,-2^63}; other magnitudes are not enumerated."
 RULE = ("case = (ordered option selection, spelling per option, value rotation, keyword case, context); expected dict known by "
         "construction; non-trivial = at least one option; distinct by rendered statement")
